@@ -244,6 +244,37 @@ def store_level(chk, rng, tier):
                 chk.violation("keys-differs", "KEYS %r returned %s, the glob relation selects %s" % (p, got_keys, want), dict(case=c["line"], pattern=repr(p), pattern_hex=hx(p), got=repr(got_keys), expected=repr(want)))
             elif got_scan != want:
                 chk.violation("scan-differs", "SCAN 0 MATCH %r returned %s, KEYS and the glob relation select %s" % (p, got_scan, want), dict(case=c["line"], pattern=repr(p), pattern_hex=hx(p), got=repr(got_scan), expected=repr(want)))
+    # the pattern sent as a SIMPLE STRING (the server takes the text of any string-typed element as an argument), the request arriving
+    # in three segments with the pattern in the middle one: the pattern the command sees is the one the client sent
+    lcases = []
+    for p in [b"a*", b"ab?", b"user:*", b"*b", b"??", b"a.c", b"k?", b"x*x", b"abab", b"*"] + [q for q in pats[26:46] if b"\r" not in q and b"\n" not in q and q]:
+        for cmdname in ("SCAN", "KEYS"):
+            if cmdname == "SCAN":
+                segs = [b"*6\r\n$4\r\nSCAN\r\n$1\r\n0\r\n$5\r\nMATCH\r\n", b"+" + p + b"\r\n", b"$5\r\nCOUNT\r\n$6\r\n100000\r\n"]
+            else:
+                segs = [b"*2\r\n", b"$4\r\nKEYS\r\n+" + p, b"\r\n"]
+            pre = b"".join(G.request_bytes(n_, a_) for n_, a_ in setup)
+            steps = [(0, "f" + L.hx(pre))] + [(0, "g" + L.hx(sg)) for sg in segs[:-1]] + [(0, "f" + L.hx(segs[-1])), (0, "e")]
+            lcases.append(dict(pat=p, cmd=cmdname, line=L.mkcase(steps, handler="example", trace=False)))
+    rc, o, _ = vlib.run_harness(["conn"], "\n".join(c["line"] for c in lcases) + "\n", timeout=600)
+    outs = [l.split(" ", 1)[1] for l in o.splitlines() if " " in l and l.split(" ", 1)[0].isdigit()]
+    if rc != 0 or len(outs) != len(lcases):
+        chk.violation("harness-failure", "store-level run (simple-string patterns) failed rc=%d: %s" % (rc, o[-300:]), dict(stage="store"), "panic" not in o)
+    else:
+        for c, a in zip(lcases, outs):
+            reps = S.replies_of(L.Obs(a))
+            want = sorted(k for k in keys if direct_glob(c["pat"], k))
+            r_ = reps[-1] if len(reps) == 2 else None
+            got = None
+            if r_ and c["cmd"] == "KEYS" and r_[0] == "*":
+                got = sorted(x[1] for x in r_[1])
+            elif r_ and c["cmd"] == "SCAN" and r_[0] == "*" and len(r_[1]) == 2 and r_[1][1][0] == "*":
+                got = sorted(x[1] for x in r_[1][1][1])
+            n += 1
+            if got != want:
+                chk.violation("simple-string-pattern", "%s with the pattern %r sent as a simple string, the request arriving in three segments: returned %s, the glob relation selects %s" % (
+                    c["cmd"], c["pat"], got, want), dict(case=c["line"], pattern=repr(c["pat"]), pattern_hex=hx(c["pat"]), got=repr(got), expected=repr(want)))
+                break
     # SCAN the way a client uses it: SCAN 0, then SCAN <returned cursor> until the cursor comes back as 0.  For every
     # pattern and COUNT the iteration must end, and the keys collected are exactly the keys KEYS selects, each once
     # (theorem StoreScan.scan_iteration_agrees_with_keys on the store model; here the example server is run beside the
